@@ -503,7 +503,23 @@ fn skip_assign(core: &Core) -> bool {
 }
 
 fn skip_return(core: &Core) -> bool {
-    matches!(core, Core::Return { .. } | Core::Raise { .. })
+    // Statements which are not Python expressions can neither be returned nor assigned.
+    matches!(
+        core,
+        Core::Return { .. }
+            | Core::Raise { .. }
+            | Core::While { .. }
+            | Core::For { .. }
+            | Core::If { .. }
+            | Core::Pass
+            | Core::Break
+            | Core::Continue
+            | Core::Import { .. }
+            | Core::FunDef { .. }
+            | Core::ClassDef { .. }
+            | Core::With { .. }
+            | Core::WithAs { .. }
+    )
 }
 
 /// Python does not permit leading zeros in a decimal integer literal.
